@@ -33,7 +33,7 @@ RULE = ("one run = one version-1 certificate file and one root key, judged by th
         "dishonest issuer (validly signed trees of depth 1..4 over {device, attestation, ui, signer} with "
         "shared ancestors, missing / wrong tweaks); non-trivial = a certificate file existed and loaded "
         "or was refused by both sides; distinct = (artefact class, alteration kind, element, verdict map)")
-TIERS = {"quick": {"runs": 1600, "wall": 150}, "thorough": {"runs": 60000, "wall": 1800}}
+TIERS = {"quick": {"runs": 8000, "wall": 240}, "thorough": {"runs": 150000, "wall": 3000}}
 MUTANT_RUNS = 1200
 MUTANT_WALL = 120
 COMPONENTS = {
